@@ -127,5 +127,6 @@ func RunTags(file string, seed int64) (*Report, error) {
 		}
 		return nil
 	})
+	reportAliasing(rep)
 	return rep, err
 }
